@@ -96,22 +96,17 @@ def check(ctx):
                 ctx.fail(R3, "%s:%s" % (b.file, b.line), "recursion without a known termination argument: %s" % scc, [k, "recursion"])
                 continue
             rec_calls = b.calls_to(k)
-            # the visited set: the `&mut` collection parameter that is tested and passed down (named `%s` today; found by role)
+            # the visited set: the `&mut` collection parameter that is passed down to the recursive call (named `%s` today; found
+            # by role), tested (`contains`/`any`, or the bool returned by `insert`) and extended before recursing
+            from .guards import visited_guard
             pl = [i for i in range(1, b.arg_count + 1) if b.local_ty(i).startswith("&mut ") and any(t in b.local_ty(i) for t in ("Vec<", "HashSet<", "BTreeSet<"))
-                  and any(arg_origins(c, 0).has_leaf("param:%d" % i) for c in b.calls_to(*ent["test"]))]
+                  and rec_calls and all(any(origins(b, a).has_leaf("param:%d" % i) for a in c.args) for c in rec_calls)]
             if not pl or not rec_calls:
                 ctx.fail(R3, "%s:%s" % (b.file, b.line), "visited-set parameter `%s` of %s not found" % (ent["set_param"], k), [k, "visited-param"])
                 continue
-            # the same set is passed down
             for c in rec_calls:
-                passed = any(origins(b, a).has_leaf("param:%d" % pl[0]) for a in c.args)
-                ctx.require(R3, passed, c.where(), "the recursive call passes the same visited set `%s`" % ent["set_param"], [k, "visited-passed"])
-            tests = [c for c in b.calls_to(*ent["test"]) if arg_origins(c, 0).has_leaf("param:%d" % pl[0])]
-            inserts = [c for c in b.calls_to(*ent["insert"]) if arg_origins(c, 0).has_leaf("param:%d" % pl[0])]
-            neg_edges = []
-            for c in tests:
-                t, f = call_true_false_edges(b, c)
-                neg_edges += f
+                ctx.ok(R3, "the recursive call @%s passes the same visited set" % c.line)
+            neg_edges, inserts, tests, _rev = visited_guard(b, lambda sl: sl.has_leaf("param:%d" % pl[0]))
             ok, hit = unreachable_without(b, [c.bb for c in rec_calls], removed_edges=neg_edges)
             ctx.require(R3, bool(tests) and bool(neg_edges) and ok, rec_calls[0].where(),
                         "%s: the recursive call is reachable only when the current element is not yet in `%s`" % (k.rsplit("::", 1)[1], ent["set_param"]),
